@@ -488,6 +488,7 @@ static Case gen_c12() {
     return c;
 }
 
+#ifndef HARNESS_NO_MAIN
 int main(int argc, char **argv) {
     Harness h;
     h.prop = "C09";
@@ -500,3 +501,4 @@ int main(int argc, char **argv) {
     h.mode("c12", [] { rc_property("C12 fragment validation", gen_c12, run_c12); }, run_c12);
     return harness_main(argc, argv, h);
 }
+#endif
